@@ -274,6 +274,29 @@ def gen_conflict(rng):
     return "conflict", spends, boundary_states(rng, spends, 5)
 
 
+def gen_pairs(rng):
+    """a 'not before' / 'before' pair of one family on one spend, equal or adjacent values, both orders
+    (the incremental Impossible* checks of the fold), optionally a third assertion in between"""
+    s = Spend(rng)
+    fam = rng.choice([("HR", "BHR"), ("SR", "BSR"), ("HA", "BHA"), ("SA", "BSA")])
+    m = kmax(fam[0])
+    a = rng.choice([0, 1, 5, 10, 100, m - 1, m, m // 2])
+    b = rng.choice([a, a, a + 1, a + 1, max(a - 1, 0), a + 2])
+    pair = [(fam[0], a), (fam[1], b)]
+    if rng.chance(1, 2):
+        pair.reverse()
+    if rng.chance(1, 3):
+        k = rng.choice(fam)
+        pair.insert(rng.below(3), (k, rng.choice([a, b, max(a - 1, 0), b + 1, 0, m])))
+    s.asserts = pair
+    spends = [s]
+    if rng.chance(1, 3):
+        o = Spend(rng)
+        o.asserts.append((rng.choice(fam), rng.choice([a, b, 0, m])))
+        spends.insert(rng.below(2), o)
+    return "pairs", spends, boundary_states(rng, spends, 4)
+
+
 def gen_small(rng):
     """few assertions with small or boundary in-range arguments: high accept ratio, every threshold probed"""
     spends = []
@@ -323,21 +346,28 @@ def gen_ephemeral(rng):
         c = Spend(rng, parent=rng.bytes(32), ph=cph, amount=camt)  # not the created coin: different parent
     else:
         c = Spend(rng, parent=p.id, ph=cph, amount=camt)
-    n = rng.below(3)
+    n = rng.choice([0, 1, 1, 1, 2])
     for _ in range(n):
         k = rng.choice(KNAMES if rng.chance(1, 3) else sorted(RELATIVE))
-        v = rng.choice([0, 0, 1, 10, kmax(k), kmax(k) + 1, -1, 1 << 70]) if rng.chance(2, 3) else argpool(rng, k)
+        cls = rng.below(4)
+        if cls < 2:
+            v = rng.choice([0, 0, 1, 10, kmax(k)])
+        elif cls == 2:
+            v = rng.choice([-1, -2, -(1 << 40), -(kmax(k) + 1)])
+        else:
+            v = rng.choice([kmax(k) + 1, kmax(k) + 2, 1 << 70])
         c.asserts.append((k, v))
     if rng.chance(1, 3):
         k = rng.choice(KNAMES)
         p.asserts.append((k, rng.choice([0, 1, 10])))
-    if rng.chance(1, 4):
-        c.noise.append((op_atom(OPC["ASSERT_EPHEMERAL"]), b""))
+    if r >= 2 and rng.chance(1, 4):
+        c.noise.append((op_atom(OPC["ASSERT_EPHEMERAL"]), b""))      # true: c is the coin p creates
     spends = [p, c] if rng.chance(2, 3) else [c, p]
     return "ephemeral", spends, boundary_states(rng, spends, 4)
 
 
-GENS = [gen_consistent, gen_consistent, gen_conflict, gen_conflict, gen_small, gen_small, gen_overflow, gen_ephemeral]
+GENS = [gen_consistent, gen_consistent, gen_conflict, gen_conflict, gen_small, gen_small, gen_overflow, gen_ephemeral,
+        gen_ephemeral, gen_pairs, gen_pairs]
 
 
 # ---------------------------------------------------------------- case lines
@@ -372,6 +402,52 @@ def make_lines(rng, gen_name, spends, states, flags, visitor):
     return checks, oracles, key
 
 
+def passes(line):
+    return line.split(" ")[0] == "L-OK"
+
+
+def classify_disagreements(rep, checks, impl, model, nkey=None):
+    """model vs implementation.  The model's pass/fail verdict in non-legacy mode is proved equal to the arithmetic
+    definition (C03_fold_sound_complete), so a differing pass bit there is a concrete input on which the
+    implementation deviates from the per-assertion semantics: a failure.  Any other difference (stage or class of a
+    rejection, the folded summary, the legacy mode) means the mirror no longer describes the code: a broken tie,
+    reported without claiming a failing input (the oracle stream decides whether the property itself fails)."""
+    st = rep.streams.setdefault("locks.check", {"cases": 0, "disagreements": 0, "impl_panics": 0})
+    st["cases"] += len(checks)
+    rep.evaluations += len(checks)
+    rep.traces += len(checks)
+    ties = []
+    for c, i, m in zip(checks, impl, model):
+        if i == "PANIC":
+            st["impl_panics"] += 1
+        if nkey:
+            rep.nontrivial.add(("locks.check", nkey(c, i)))
+        if i == m:
+            continue
+        st["disagreements"] += 1
+        nowrap = c.split(" ")[3] == "1"
+        if i == "PANIC" or i.startswith("CRASH") or i == "TIMEOUT":
+            rep.add_failure("locks.check", c, i, m, "implementation panicked / crashed")
+        elif nowrap and passes(i) != passes(m):
+            rep.add_failure("locks.check", c, i, m,
+                            "non-legacy check_time_locks verdict differs from the model, which is proved equal to the "
+                            "conjunction of the individual assertions")
+        else:
+            ties.append((c, i, m))
+    if ties:
+        kinds = {}
+        for c, i, m in ties:
+            k = "%s vs %s" % (i.split(" ")[0], m.split(" ")[0])
+            kinds[k] = kinds.get(k, 0) + 1
+        rep.add_broken("correspondence", "locks.check",
+                       "model and implementation differ on %d cases without a differing non-legacy pass verdict "
+                       "(impl vs model: %s); first: %s"
+                       % (len(ties), json.dumps(kinds), json.dumps({"case": ties[0][0], "impl": ties[0][1], "model": ties[0][2]})))
+    if checks and len(rep.samples) < 12:
+        rep.samples.append({"stream": "locks.check", "case": checks[0], "impl": impl[0], "model": model[0]})
+        rep.samples.append({"stream": "locks.check", "case": checks[-1], "impl": impl[-1], "model": model[-1]})
+
+
 def run(ctx):
     rep, tier = ctx["rep"], ctx["tier"]
     rng = C.SplitMix64(ctx["seed"])
@@ -385,9 +461,9 @@ def run(ctx):
                 rep.add_failure("locks.oracle", line, impl[0], "OK", "arithmetic oracle disagrees with parse_spends + check_time_locks")
         else:
             model = C.run_lines(C.VRUN(UNIT), [line]) if ctx["have_model"] else ["MODEL-UNAVAILABLE"]
-            diff_stream(rep, "locks.check", [line], impl, model, None, project=lambda l: l.split(" ")[0])
+            classify_disagreements(rep, [line], impl, model)
         return
-    nb = 260 if tier == "quick" else 6000
+    nb = 420 if tier == "quick" else 8000
     checks, oracles, keys_c, keys_o = [], [], [], []
     gens = {}
     g = rng.fork("bundles")
@@ -413,13 +489,7 @@ def run(ctx):
         return (kmap[c], c.split(" ")[3], i.split(" ")[0])
     proj = lambda l: l.split(" ")[0]
     if ctx["have_model"]:
-        diff_stream(rep, "locks.check", checks, impl, model, nkey, project=proj)
-        # tie check: folded summaries (not a property violation by itself)
-        bad = [(c, i, m) for c, i, m in zip(checks, impl, model) if proj(i) == proj(m) and i != m]
-        if bad:
-            rep.add_broken("correspondence-summary", "locks.check",
-                           "folded lock summary of model and implementation differ on %d cases with equal verdicts; first: %s"
-                           % (len(bad), json.dumps({"case": bad[0][0], "impl": bad[0][1], "model": bad[0][2]})))
+        classify_disagreements(rep, checks, impl, model, nkey)
     else:
         rep.evaluations += len(checks)
     from collections import Counter
